@@ -143,3 +143,68 @@ namespace Anemo
 /-- **Names are wired as the model says** (word for word, checked on this run): `build` makes one certificate per name (primary first, then the alternate), the verifier accepts exactly those names, the server resolves its certificate by SNI among exactly those names (no fallback), the client configurations present the PRIMARY certificate, and `connect_with_client_config` dials with the primary name. -/
 theorem C14_names_are_pinned : Gen.tlsConfigShapeChecked = true ∧ Gen.endpointShapeChecked = true := ⟨rfl, rfl⟩
 end Anemo
+
+namespace Anemo
+
+theorem dnsEq_trans (a b c : Name) (h1 : dnsEq a b = true) (h2 : dnsEq b c = true) : dnsEq a c = true := by
+  unfold dnsEq at *
+  simp only [beq_iff_eq] at *
+  rw [h1, h2]
+
+/-- **Whatever the dialer is** (honest or not, any certificate, any handshake signature): if the
+listener admits it, the name in its hello is one the listener accepts AND its certificate is valid
+for a name the listener accepts - both, so claiming one network while holding a certificate for
+another never gets in. -/
+theorem C14_admitted_dialer_is_in_network (accepted : List Name) (sni : Name) (c? : Option Cert) (hs : HsSig) (k : Key)
+    (h : serverAccepts accepted sni c? hs = some k) :
+    accepted.any (dnsEq sni) = true ∧ ∃ c, c? = some c ∧ accepted.any (validFor c) = true ∧ certOk c = true := by
+  cases c? with
+  | none => simp [serverAccepts] at h
+  | some c =>
+    unfold serverAccepts at h
+    simp only at h
+    split at h
+    · rename_i hc
+      simp only [Bool.and_eq_true] at hc
+      exact ⟨hc.1.1.1, c, rfl, hc.1.2, hc.1.1.2⟩
+    · cases h
+
+/-- **Whatever the listener is**: a dialer completes a connection only with a certificate valid for
+the name it dialled, and that name is its own; with `connect_with_client_config` dialling the primary
+name (`C14_names_are_pinned`) the party reached holds a certificate for the dialer's own network. -/
+theorem C14_reached_listener_is_in_network (own : List Name) (pin? : Option Key) (dialed : Name) (c : Cert) (hs : HsSig) (k : Key)
+    (h : clientAccepts own pin? dialed c hs = some k) :
+    own.contains dialed = true ∧ validFor c dialed = true ∧ certOk c = true := by
+  unfold clientAccepts at h
+  split at h
+  · rename_i hc
+    simp only [Bool.and_eq_true] at hc
+    exact ⟨hc.1.1.1.2, hc.1.2, hc.1.1.2⟩
+  · cases h
+
+/-- endpoints with a single name each: "can connect" is symmetric ... -/
+theorem C14_single_name_symmetric (a b : Name) (ka kb : Key) :
+    (honestConnect ⟨a, none⟩ ka ⟨b, none⟩ kb none).isSome = (honestConnect ⟨b, none⟩ kb ⟨a, none⟩ ka none).isSome := by
+  rw [C14_connect_iff, C14_connect_iff]
+  simp [EndpointNames.accepted, dnsEq_symm a b]
+
+/-- ... and transitive, so single-name networks PARTITION the endpoints: the classes are the DNS
+names, and no connection ever crosses two classes (in a population of any size) -/
+theorem C14_single_name_partition (a b c : Name) (ka kb kc : Key)
+    (hab : (honestConnect ⟨a, none⟩ ka ⟨b, none⟩ kb none).isSome = true)
+    (hbc : (honestConnect ⟨b, none⟩ kb ⟨c, none⟩ kc none).isSome = true) :
+    (honestConnect ⟨a, none⟩ ka ⟨c, none⟩ kc none).isSome = true := by
+  rw [C14_connect_iff] at *
+  simp [EndpointNames.accepted] at *
+  exact dnsEq_trans a b c hab hbc
+
+/-- the alternate name opens exactly ONE direction: a listener with alternate name `x` admits dialers
+of network `x`, but itself still dials as its primary network only -/
+theorem C14_alternate_is_inbound_only (p x : Name) (kd kl : Key) (h : dnsEq x p = false) :
+    (honestConnect ⟨x, none⟩ kd ⟨p, some x⟩ kl none).isSome = true ∧
+    (honestConnect ⟨p, some x⟩ kl ⟨x, none⟩ kd none).isSome = false := by
+  rw [C14_connect_iff, C14_connect_iff]
+  simp [EndpointNames.accepted, dnsEq_refl, dnsEq_symm p x, h]
+
+example : (honestConnect ⟨[0x61], none⟩ 1 ⟨[0x41], none⟩ 2 none).isSome = true := by decide
+end Anemo
